@@ -330,6 +330,53 @@ def run (s : State) : List Ev → Option State
     | some s' => run s' es
     | none => none
 
+/-! ### threads of a member, crash points inside a finalizer
+
+`ensure_running` never looks at the calling thread: it blocks INT/TERM around `spawnv_passfds` in
+*whichever* thread launches (l.151-160; the new process inherits the mask of the launching thread) and it
+holds `self._lock` from the probe to the assignment of `_fd/_pid` (l.98-172).  The tracked actions of the
+threads of one process are therefore atomic with respect to each other, a concurrent group of
+operations is *some interleaving* of atomic actions, and the thread is not an input of `step`: `TAct`
+carries it only so that the histories fed by the harness (operation done by the main thread / by another
+thread / by k threads at once) are histories of the model.  What is assumed here: `threading.RLock` is
+a lock.  (`_send` writes outside the lock, after `ensure_running` returned; the write is atomic, see the
+header.) -/
+
+/-- an action of thread `thread` of the process named in `ev` -/
+structure TAct where
+  thread : Nat
+  ev : Ev
+  deriving Repr, Inhabited
+
+/-- what the threads of member `p` do on their own: tracked operations, SemLock construction, finalizers,
+    collection of copies, plain file creation (no spawn, no exit, nothing of another process or tracker) -/
+def memberAct (p : Pid) : Ev → Bool
+  | .op q _ _ => q == p
+  | .mkfile q => q == p
+  | .semOpen q _ => q == p
+  | .semRegister q _ => q == p
+  | .finUnlink q _ => q == p
+  | .finUnregister q _ => q == p
+  | .dropCopy q _ => q == p
+  | _ => false
+
+/-- run a history of thread actions, oldest first -/
+def runT (s : State) (as : List TAct) : Option State := run s (as.map (·.ev))
+
+/-- `p` has a tracker and it is alive: `ensure_running` is a no-op -/
+def aliveFor (s : State) (p : Pid) : Prop := ∃ t, (s.procs p).trk = some t ∧ (s.trks t).alive = true
+
+/-- the clean-up primitives of the finalizer of `o` (`SemLock._cleanup`), in program order -/
+def finPrims (p : Pid) (o : Oid) : List Ev := [.finUnlink p o, .finUnregister p o]
+
+/-- finalizers of the objects `os`, one after the other (collection of a primitive made of several SemLocks,
+    or `util._exit_function` at a normal exit) -/
+def finPrimsOf (p : Pid) (os : List Oid) : List Ev := os.flatMap (finPrims p)
+
+/-- SIGKILL of `p` inside these finalizers, after `k` clean-up primitives have completed
+    (`k = 0`: before the first `sem_unlink`; `k` = all of them: right after the last UNREGISTER) -/
+def killFin (p : Pid) (os : List Oid) (k : Nat) : List Ev := (finPrimsOf p os).take k ++ [.exit p .crash]
+
 /-- nothing is left to happen on its own: no tracker can boot or sweep -/
 def quiescent (s : State) : Prop :=
   ∀ t, (s.trks t).boot = none ∧ step s (.eof t) = none
